@@ -6,8 +6,10 @@ WT=/tmp/wt/confirm
 FEAT="vec8 vec16 vec32 vec64 rgb rgba uv uvw"
 git -C /repo worktree remove --force $WT 2>/dev/null
 git -C /repo worktree add -q --detach $WT HEAD || exit 2
+
+ARGS=(); for a in "$@"; do ARGS+=("$(realpath "$a")"); done
 cd $WT
-for d in "$@"; do
+for d in "${ARGS[@]}"; do
   id=$(basename $d); d=$(realpath $d)
   git checkout -q -- . ; rm -rf tests
   applies=false; builds=false; suite=false; demo_fails=false; demo_passes_clean=false
